@@ -99,6 +99,7 @@ fn lifecycle(step: &Step) -> &'static str {
     match step {
         Step::Op { op, .. } => crate::client::op_kind(op),
         Step::Open { .. } => "open",
+        Step::OpenDropped { .. } => "open-dropped",
         Step::Next { .. } => "next",
         Step::Finish { .. } => "finish",
         Step::State { .. } => "state",
@@ -273,6 +274,17 @@ pub fn walk_plain(sc: &Scenario, hist: &[Ev], opts: &WalkOpts) -> Vec<Mismatch> 
                 },
                 Step::DropStream { slot } => {
                     streams.insert(*slot, None);
+                }
+                Step::StreamAbandon { slot } => {
+                    if let Some(Some((m, tok))) = streams.get_mut(slot) {
+                        if m.state == model::SState::Active {
+                            m.abandoned = true;
+                        }
+                        if opts.strict_stream {
+                            let tok = tok.clone();
+                            check(Some(Ret::Unit), false, &tok, false);
+                        }
+                    }
                 }
                 _ => {}
             }
@@ -496,6 +508,12 @@ pub fn check_c13(sc: &Scenario, rr: &RunResult) -> Vec<Violation> {
     let mut unfinished: std::collections::BTreeSet<String> = Default::default();
     for (c, cs) in sc.clients.iter().enumerate() {
         for (ix, st) in cs.steps.iter().enumerate() {
+            if let Step::OpenDropped { token, .. } = st {
+                // If the request reached the server, the search is one nobody finished (outside the statement's
+                // histories). If it never left the client, nothing may remain of it: its ID then has no token
+                // here and is reported as never-sent.
+                unfinished.insert(token.clone());
+            }
             if let Step::Open { token, slot, .. } = st {
                 if !matches!(rets_all.get(&(c, ix)).map(|x| x.0), Some(Ret::Opened)) {
                     continue;
@@ -2273,21 +2291,28 @@ pub fn check_c14(sc: &Scenario, rr: &RunResult) -> Vec<Violation> {
         let s = rsy.get(&(0, ix));
         let what = lifecycle(st);
         if let Some(k) = compromised_at {
-            if ix > k {
-                break;
-            }
-            if ix == k {
-                // outcome class only
+            if ix >= k {
+                // Outcome class only, and only where the class cannot depend on who noticed the loss first: single
+                // operations and search() either fail (any connection-loss error, or a timeout) in both runs or
+                // are refused locally in both; a next() that was waiting when the connection went away fails in both.
+                // (Abandon, unbind and streaming_search succeed or fail depending on whether the driver has gone yet.)
+                let comparable = match st {
+                    Step::Op { op, .. } => !matches!(op, OpSpec::Unbind | OpSpec::Abandon(_)),
+                    Step::Next { .. } => ix == k,
+                    _ => false,
+                };
                 if let (Some(a), Some(s)) = (a, s) {
-                    let ca = if lost(a.0) { "lost" } else { ret_class(a.0) };
-                    let cs = if lost(s.0) { "lost" } else { ret_class(s.0) };
+                    let norm = |r: &Ret| if lost(r) || matches!(r, Ret::Err(crate::world::ErrC::Timeout)) { "failed" } else { ret_class(r) };
+                    let (ca, cs) = (norm(a.0), norm(s.0));
+                    if comparable && ca != cs {
+                        v.push(Violation::new("C14", "C14.value", format!("{what}/connection-lost/async-{ca}-sync-{cs}"), format!("step {ix}: async {} sync {}", clip(&format!("{:?}", a.0)), clip(&format!("{:?}", s.0)))));
+                    }
                     let unbind = matches!(st, Step::Op { op: OpSpec::Unbind, .. });
-                    if unbind && a.0 != s.0 {
+                    if ix == k && unbind && a.0 != s.0 {
                         v.push(Violation::new("C14", "C14.value", "unbind/result-differs", format!("step {ix}: async {:?} sync {:?}", a.0, s.0)));
                     }
-                    let _ = (ca, cs);
                 }
-                break;
+                continue;
             }
         }
         match (a, s) {
@@ -2412,6 +2437,12 @@ pub fn check_c11(sc: &Scenario, rr: &RunResult) -> Vec<Violation> {
             }
         }
     }
+    // (e) with nothing behind the item on the wire: the rejection may not wait for more bytes. The frame is complete
+    // when the last byte its outer length announces is delivered; drive() must end in that virtual instant.
+    let t_complete = announced_end.and_then(|end| rr.hist.iter().find_map(|e| match &e.kind {
+        EvKind::NetDeliver { upto } if *upto >= end => Some(e.t_ms),
+        _ => None,
+    }));
     // (d) non-envelope input must end the connection with an error - provided somebody was still using
     // the connection when the item arrived (otherwise the driver may legitimately be gone already)
     let hostile_seq = rr.hist.iter().find_map(|e| match &e.kind {
@@ -2434,6 +2465,16 @@ pub fn check_c11(sc: &Scenario, rr: &RunResult) -> Vec<Violation> {
     };
     if h.must_end && v.is_empty() && pending_at_hostile {
         let exit = rr.hist.iter().find_map(|e| if let EvKind::DriverExit { ok, err } = &e.kind { Some((*ok, err.clone(), e.t_ms, e.seq)) } else { None });
+        if let (Some((false, _, t, _)), Some(tc), true) = (&exit, t_complete, h.gap_after_ms > 0 && !exempt) {
+            if *t > tc {
+                v.push(Violation::new(
+                    "C11",
+                    "C11.c",
+                    format!("rejected-only-when-more-bytes-arrived/{class}"),
+                    format!("the malformed frame was complete at t={tc}ms with nothing behind it on the wire; the connection ended only at t={t}ms"),
+                ));
+            }
+        }
         match exit {
             Some((false, _, t, xseq)) if t <= t_all => {
                 // every call still waiting at that point got an error
@@ -2569,6 +2610,17 @@ pub fn check_c18(sc: &Scenario, rr: &RunResult) -> Vec<Violation> {
                     want_ok = Some(false);
                 } else if !needs_tls {
                     want_ok = Some(true);
+                } else if matches!(c.peer, Peer::Tls { .. }) {
+                    // the generator only writes TLS peers in good order with a verifiable (or unverified) certificate
+                    want_ok = Some(true);
+                    if !o.peer.handshake_completed || o.peer.other_cleartext_pdus > 0 || (c.scheme == "ldaps" && (o.peer.starttls_request_seen || !o.peer.cleartext.is_empty())) || (c.scheme == "ldap" && !o.peer.starttls_request_seen) {
+                        v.push(Violation::new(
+                            "C18",
+                            "C18.tls",
+                            format!("{shape}/{}", if c.scheme == "ldaps" { "ldaps-did-not-open-with-tls" } else { "starttls-exchange-missing" }),
+                            format!("{api} with_settings({:?}) starttls-flag={}: outcome {}, peer log {:?}", o.url, c.starttls, o.outcome, o.peer),
+                        ));
+                    }
                 } else {
                     want_ok = Some(false);
                     if c.peer == Peer::Stall {
@@ -2621,7 +2673,7 @@ pub fn check_c17(sc: &Scenario, rr: &RunResult) -> Vec<Violation> {
         if c.scheme == "ldap" { "+starttls" } else { "" },
         if c.trust_ca { "custom-connector" } else { "default-connector" },
         if c.no_tls_verify { "/no-verify" } else { "" },
-        if c.host == HostForm::Ip4 { "/wrong-name" } else { "" }
+        if c.host != HostForm::Name { "/wrong-name" } else { "" }
     );
     let beh = format!("{:?}/{:?}", starttls, tls).replace(|ch: char| ch.is_ascii_digit(), "").replace("()", "");
     if let Some(p) = o.outcome.strip_prefix("panic:") {
@@ -2773,3 +2825,189 @@ pub fn check_c04_paged(sc: &Scenario, rr: &RunResult) -> Vec<Violation> {
     }
     v
 }
+
+/// C02 on the PAGED family: every SearchRequest a paged search puts on the wire is the search the
+/// caller asked for (same arguments, options and other controls on every page).
+pub fn check_c02_paged(sc: &Scenario, rr: &RunResult) -> Vec<Violation> {
+    let mut out = vec![];
+    for e in &rr.hist {
+        if let EvKind::SrvUndecodable { why, .. } = &e.kind {
+            out.push(Violation::new("C02", "C02.wellformed", "request-not-decodable", format!("the server could not decode what the client wrote: {why}")));
+        }
+    }
+    for x in check_c16(sc, rr) {
+        let request_side = x.clause == "C16.b" || x.clause == "C16.panic" || x.clause == "C16.hang";
+        if !request_side {
+            continue;
+        }
+        let clause = match x.clause.as_str() {
+            "C16.b" => "C02.paged".to_string(),
+            other => other.replace("C16", "C02"),
+        };
+        out.push(Violation { property: "C02".into(), clause, signature: format!("paged/{}", x.signature), detail: x.detail });
+    }
+    out
+}
+
+/// C16 on the PAGEDFAULT family: whatever happens to the connection, the entries handed out are a
+/// prefix of the result set in server order, each exactly once, the end of the search is reported
+/// only after the last page, and no result handed out by finish() carries a paging control.
+pub fn check_c16_fault(sc: &Scenario, rr: &RunResult) -> Vec<Violation> {
+    const PAGED: &[u8] = b"1.2.840.113556.1.4.319";
+    let mut v = vec![];
+    if rr.verdict != crate::exec::Verdict::Done {
+        // a hang under a fault is C04's business
+        return v;
+    }
+    for (actor, msg, file) in panics(&rr.hist) {
+        v.push(Violation::new("C16", "C16.panic", format!("panic/{}/{}", short_file(&file), trunc(&msg, 60)), format!("{actor} panicked: {msg} ({file})")));
+    }
+    if !v.is_empty() {
+        return v;
+    }
+    let Some(pm) = &sc.plan.paging else { return v };
+    let rets = returns_by_step(&rr.hist);
+    for (c, cs) in sc.clients.iter().enumerate() {
+        let Some(Step::Open { token, .. }) = cs.steps.first() else { continue };
+        if !matches!(rets.get(&(c, 0)).map(|x| x.0), Some(Ret::Opened)) {
+            continue;
+        }
+        let mut i = 0usize;
+        let mut ended = false;
+        let mut normal_end = false;
+        for (six, st) in cs.steps.iter().enumerate().skip(1) {
+            let Some((ret, ..)) = rets.get(&(c, six)) else { continue };
+            match st {
+                Step::Next { .. } => {
+                    if ended || **ret == Ret::Skipped {
+                        continue;
+                    }
+                    match ret {
+                        Ret::Item(Some(_)) => {
+                            let e = crate::msg::RespOp::Entry { dn: format!("cn=e{i},{token}"), attrs: vec![("cn".into(), vec![format!("e{i}").into_bytes()])] };
+                            let want = Ret::Item(Some(model::item_expect(&e, &None)));
+                            if i >= pm.n || **ret != want {
+                                v.push(Violation::new("C16", "C16.a", "fault/wrong-entry (lost, duplicated or out of order)", format!("client {c} step {six} ({token}, entry index {i} of {}): got {}", pm.n, clip(&format!("{:?}", ret)))));
+                                ended = true;
+                            }
+                            i += 1;
+                        }
+                        Ret::Item(None) => {
+                            ended = true;
+                            normal_end = true;
+                            if i < pm.n {
+                                v.push(Violation::new("C16", "C16.a", "fault/end-before-all-entries", format!("client {c} step {six} ({token}): next() reported the end of the search after {i} of {} entries", pm.n)));
+                            }
+                        }
+                        _ => ended = true,
+                    }
+                }
+                Step::Finish { .. } => {
+                    if let Ret::Fin(r) = ret {
+                        if r.ctrls.iter().any(|c| c.oid.as_bytes() == PAGED) {
+                            v.push(Violation::new(
+                                "C16",
+                                "C16.d",
+                                if normal_end { "fault/final-result-carries-paging-control" } else { "fault/page-result-with-paging-control-handed-out-for-an-unfinished-search" },
+                                format!("client {c} step {six}: {}", clip(&format!("{:?}", r))),
+                            ));
+                        }
+                    }
+                }
+                _ => {}
+            }
+        }
+    }
+    v
+}
+
+
+/// C04 on the real transports (lane REALIO).
+pub fn check_c04_real(sc: &Scenario, rr: &RunResult) -> Vec<Violation> {
+    use crate::realio::{Ending, RealCase, RealObs};
+    let mut v = vec![];
+    let Ok(case) = serde_json::from_str::<RealCase>(&sc.note) else { return v };
+    let Some(obs) = rr.hist.iter().find_map(|e| match &e.kind {
+        EvKind::Note(n) => n.strip_prefix("realio ").and_then(|j| serde_json::from_str::<RealObs>(j).ok()),
+        _ => None,
+    }) else {
+        return v;
+    };
+    if obs.skipped.is_some() {
+        return v;
+    }
+    let ending = match case.ending {
+        Ending::Unbind => "unbind",
+        Ending::DropHandles => "drop-handles",
+        Ending::PeerClose { .. } => "peer-close",
+        Ending::PeerReset { .. } => "peer-reset",
+        Ending::PeerGarbage { .. } => "peer-garbage",
+        Ending::PeerCloseIdle => "peer-close-idle",
+    };
+    let ctx = format!("{:?}/{}/{}", case.transport, if case.sync_api { "sync" } else { "async" }, ending);
+    let mut bad = |clause: &str, what: &str, detail: String| v.push(Violation::new("C04", clause, format!("real/{ctx}/{what}"), format!("{detail} [{:?}] observed {:?}", case, obs)));
+    if obs.establish.starts_with("panic") {
+        bad("C04.panic", "panic", obs.establish.clone());
+        return v;
+    }
+    if obs.establish == "hang" {
+        bad("C04.a", "establishment-hangs", String::new());
+        return v;
+    }
+    if obs.establish != "ok" {
+        // the environment refused (no violation of this property; establishment is C17/C18's business)
+        return v;
+    }
+    for (i, w) in obs.warm.iter().enumerate() {
+        if *w != format!("ok:R{}", i + 1) {
+            bad(if w == "hang" { "C04.a" } else { "C04.c" }, "warm-up-operation", format!("bind {} returned {w}", i + 1));
+            return v;
+        }
+    }
+    let check_calls_fail = |bad: &mut dyn FnMut(&str, &str, String)| {
+        for (i, c) in obs.calls.iter().enumerate() {
+            match c.as_str() {
+                "err" => {}
+                "hang" => bad("C04.a", "pending-operation-hangs", format!("pending operation {i} did not return within the guard")),
+                other => bad("C04.b", "pending-operation-returns-a-value-that-was-not-received", format!("pending operation {i}: {other}")),
+            }
+        }
+    };
+    match case.ending {
+        Ending::Unbind => {
+            if obs.calls.first().map(|s| s.as_str()) != Some("ok") {
+                bad("C04.f", "unbind-fails", format!("unbind() returned {:?}", obs.calls.first()));
+            }
+            if !obs.unbind_seen_by_peer {
+                bad("C04.f", "no-unbind-request-on-the-wire", String::new());
+            }
+            if obs.peer_saw_end != "yes" {
+                bad("C04.f", "unbind-does-not-close-the-transport", "the peer did not see the end of the client's stream within the guard after unbind() had returned".into());
+            }
+            if obs.later != "err" {
+                bad(if obs.later == "hang" { "C04.a" } else { "C04.d" }, "operation-after-unbind", format!("an operation started after unbind() returned {}", obs.later));
+            }
+        }
+        Ending::DropHandles => {
+            if obs.peer_saw_end != "yes" {
+                bad("C04.f", "dropping-the-last-handle-does-not-close-the-transport", "the peer did not see the end of the client's stream within the guard".into());
+            }
+        }
+        Ending::PeerClose { .. } | Ending::PeerReset { .. } | Ending::PeerGarbage { .. } => {
+            check_calls_fail(&mut bad);
+            if obs.later != "err" {
+                bad(if obs.later == "hang" { "C04.a" } else { "C04.d" }, "operation-after-the-failure", format!("an operation started after the connection had failed returned {}", obs.later));
+            }
+        }
+        Ending::PeerCloseIdle => {
+            if obs.later != "err" {
+                bad(if obs.later == "hang" { "C04.a" } else { "C04.d" }, "operation-after-the-failure", format!("an operation started after the server had closed returned {}", obs.later));
+            }
+        }
+    }
+    if obs.drive == "hang" {
+        bad("C04.a", "drive-does-not-return", "drive() had not returned within the guard".into());
+    }
+    v
+}
+
